@@ -10,9 +10,10 @@
   keeps them; `[]` = the empty vector.  Order and emptiness matter:
    * `query_claimable` filters on `available.is_empty()` (an expired epoch has `available = []`, an
      epoch emptied by claims has `available = [(a, 0)]`);
-   * `claim` walks `epoch.total` in order and creates `epoch.claimed` from the FIRST asset it pays;
-     rewards in any other asset are then added "to the matching entry" of `claimed` — there is none, so
-     they are NOT recorded (see `claimFee`; finding `C09-claimed-second-asset`).
+   * `claim` walks `epoch.total` in order and records every reward in `epoch.claimed` with
+     `asset::aggregate_assets(epoch.claimed, [reward])`: added to the entry of that asset, or PUSHED AT THE
+     END when there is none — so `claimed` lists the assets in the order in which they were first paid
+     (not necessarily the order of `total`: a reward that floors to zero is skipped).
 
   What is outside the model is a parameter:
    * `newEpoch … inflow` – `inflow` is the amount (in the current distribution asset) that the collector's
@@ -223,28 +224,9 @@ def subAll (k r : Nat) : Ledger → Res Ledger
       | .err => .err
       | .panic => .panic
 
-/-- `for claimed_fee in epoch.claimed.iter_mut() { if info == k { amount.checked_add(r)? } }` -/
-def addAll (k r : Nat) : Ledger → Res Ledger
-  | [] => .ok []
-  | (j, y) :: rest =>
-    if j = k then
-      if y + r ≤ U128MAX then
-        match addAll k r rest with
-        | .ok t => .ok ((j, y + r) :: t)
-        | .err => .err
-        | .panic => .panic
-      else .err
-    else
-      match addAll k r rest with
-      | .ok t => .ok ((j, y) :: t)
-      | .err => .err
-      | .panic => .panic
-
-/-- the new `epoch.claimed`: created from the first reward paid, afterwards only entries that exist are
-    increased — a reward in an asset that has no entry is silently NOT recorded -/
-def recordClaimed (k r : Nat) : Ledger → Res Ledger
-  | [] => .ok [(k, r)]
-  | c :: cs => addAll k r (c :: cs)
+/-- the new `epoch.claimed`: `asset::aggregate_assets(epoch.claimed, vec![Asset { info: k, amount: r }])?`
+    — `checked_add` on the entry for `k` (overflow = `Err`), or a new entry pushed at the end -/
+def recordClaimed (k r : Nat) (cl : Ledger) : Res Ledger := aggOne cl k r
 
 /-- body of `for fee in epoch.total.iter()` for the entry `(k, t)` of `total`; `sh` = the address's
     share, `av` / `cl` the epoch's `available` / `claimed` so far, `acc` = `claimable_fees` so far -/
